@@ -152,6 +152,17 @@ Section Model.
       end
     end.
 
+  (* the same run, call by call: the result of every call up to and including the first one that raises *)
+  Fixpoint dec_trace (st : dstate) (chunks : list str) (last : str) : list (res str) :=
+    match chunks with
+    | [] => [snd (dec_step st last true)]
+    | c :: r =>
+      match dec_step st c false with
+      | (st', Ok o) => Ok o :: dec_trace st' r last
+      | (_, Err e) => [Err e]
+      end
+    end.
+
   (* ---------------------------------------------------------------- IncrementalEncoder, l.354-404 *)
   Record estate := mkE { es_enc : option est; es_encoding : option str; es_buf : str }.
 
@@ -198,4 +209,21 @@ Section Model.
       | (_, Err e) => Err e
       end
     end.
+  Fixpoint enc_trace (st : estate) (chunks : list str) (last : str) : list (res str) :=
+    match chunks with
+    | [] => [snd (enc_step st last true)]
+    | c :: r =>
+      match enc_step st c false with
+      | (st', Ok o) => Ok o :: enc_trace st' r last
+      | (_, Err e) => [Err e]
+      end
+    end.
 End Model.
+
+(* what a caller that joins the outputs observes of a trace *)
+Fixpoint collapse (tr : list (res str)) : res str :=
+  match tr with
+  | [] => Ok []
+  | Ok o :: r => match collapse r with Ok o' => Ok (o ++ o') | Err e => Err e end
+  | Err e :: _ => Err e
+  end.
